@@ -937,6 +937,69 @@ ODD_NAMES = ('hw:1,0,0', 'Synth, part A', 'a,b', ',', 'B,A', 'A,zz', ' padded ',
              'caf\u00e9 \u97f3', '0', 'None', 'A', '$HOME', '%s', 'tab\there')
 
 
+def replaced_backend_cases(ctx, LOG):
+    """A Backend object the program holds on to stays what it is when another backend is made the current one: loaded stays
+    loaded, its module is the module it imported (imported once: "only when first needed"), its open_* / get_* go on working -
+    whether it is used directly afterwards or made current again."""
+    import importlib
+    import mido.backends.backend as bmod
+    n = 0
+    calls = []
+
+    class CountingImportlib:
+        def import_module(self, name, package=None):
+            calls.append(name)
+            return importlib.import_module(name, package)
+
+        def __getattr__(self, name):
+            return getattr(importlib, name)
+    saved_env = {k: os.environ.get(k) for k in ENVV}
+    real = bmod.importlib
+    bmod.importlib = CountingImportlib()
+    try:
+        for k in ENVV:
+            os.environ.pop(k, None)
+        for first, second in (('vmonbk_a/X', 'vmonbk_b'), ('vmonbk_c', 'vmonbk_d/Y'), ('vmonbk_d/Q', 'vmonbk_a')):
+            for again in ('direct', 'set_backend-again', 'direct-after-two-switches'):
+                case = {'kind': 'replaced-backend', 'first': first, 'second': second, 'again': again}
+                purge()
+                del calls[:]
+                try:
+                    a = Backend(first)
+                    mido.set_backend(a)
+                    mido.open_input('one')
+                    mod_a = a.module
+                    mido.set_backend(second)
+                    mido.open_output('two')
+                    if again == 'direct-after-two-switches':
+                        mido.set_backend(Backend(second))
+                    ctx.check('backend module lazily imported', a.loaded is True and a.module is mod_a, 'replaced-backend-forgot-its-module', case,
+                              {'loaded': a.loaded})
+                    del LOG[:]
+                    if again == 'set_backend-again':
+                        mido.set_backend(a)
+                        mido.open_input('three')
+                    else:
+                        a.open_input('three')
+                    got = [(e[0], e[1], e[2]) for e in LOG if e[0] != 'import']
+                    ctx.check('constructor calls == model', got == [('Input', first.partition('/')[0], 'three')], 'replaced-backend-calls', case, got)
+                    n_imports = calls.count(first.partition('/')[0])
+                    ctx.check('backend module lazily imported', n_imports == 1, 'replaced-backend-imported-again', case,
+                              {'import_module calls': list(calls)})
+                except Exception as exc:
+                    ctx.fail('no exception', f'replaced-backend:{type(exc).__name__}', case, f'{type(exc).__name__}: {exc}')
+                n += 1
+    finally:
+        bmod.importlib = real
+        mido.set_backend()
+        for k, v in saved_env.items():
+            if v is None:
+                os.environ.pop(k, None)
+            else:
+                os.environ[k] = v
+    return n
+
+
 def odd_name_cases(ctx, LOG):
     """A port name is opaque: whatever characters a default name from the environment (or an explicit one) holds - commas,
     colons, slashes, blanks, other scripts, a name that is or is not in the device list - it reaches the constructor as it is."""
@@ -1093,6 +1156,9 @@ def run(ctx):
                 ctx.nontrivial(None, k)
                 n += k
                 k = baseclass_backend_cases(ctx, LOG, d)
+                ctx.nontrivial(None, k)
+                n += k
+                k = replaced_backend_cases(ctx, LOG)
                 ctx.nontrivial(None, k)
                 n += k
                 k = native_subclass_cases(ctx, LOG, d)
